@@ -110,9 +110,11 @@ def _library(case):
     e2 = M.Entry("book", "k2", [M.Field(g(5) if case.get("keytext") else "f", g(5), 7)], 6, "raw2")
     e3 = M.Entry("misc", "k1", [M.Field("a", g(6), 9)], 8, "raw3")        # duplicate key -> wrapped by the library
     e4 = M.Entry("misc", "k4", [M.Field("author", NameParts(first=[g(3)], von=[g(1)], last=[g(2)], jr=[]), 17)], 16, "raw4")
+    # the same field key twice (a duplicate-field entry handed on by the user): an error in either must be reported
+    e5 = M.Entry("misc", "k5", [M.Field("note", g(1), 19), M.Field("t", g(0), 20), M.Field("note", g(2), 21)], 18, "raw5")
     s1 = M.String("s", g(7), 10, "@string{raw}")
     s2 = M.String("n", 5, 11, "@string{n}")
-    blocks = [e1, e4, M.Preamble(g(0), 12, "p"), s1, M.ExplicitComment(g(1), 13, "c"), e2, M.ImplicitComment(g(2), 14, g(2)), e3, s2,
+    blocks = [e1, e4, e5, M.Preamble(g(0), 12, "p"), s1, M.ExplicitComment(g(1), 13, "c"), e2, M.ImplicitComment(g(2), 14, g(2)), e3, s2,
               M.ParsingFailedBlock(error=BlockAbortedException(abort_reason="Unexpectedly reached end of file."), start_line=15, raw=g(3))]
     return Library(blocks)
 
@@ -124,6 +126,8 @@ def corpus():
         {"texts": ["BOOM"], "opt": 8, "inplace": True, "then": None},
         {"texts": ["fine", "BOOM", "fine", "fine"], "opt": 7, "inplace": True, "then": None, "rot": 2},   # first failure inside a NameParts
         {"texts": ["fine", "fine", "fine", "BOOM"], "opt": 8, "inplace": False, "then": None, "rot": 2},
+        {"texts": ["fine", "BOOM", "fine"], "opt": 7, "inplace": True, "then": None},     # first of two fields with one key fails
+        {"texts": ["fine", "fine", "BOOM"], "opt": 8, "inplace": True, "then": None},     # ... the second one fails
         {"texts": ["see https://a.b/c&d now"], "opt": 0, "inplace": True, "then": 4},           # K4
         {"texts": ["a"], "opt": 0, "inplace": True, "then": 4, "keytext": True},
         {"texts": ["{" * 400 + "x" + "}" * 400, "fine"], "opt": 4, "inplace": True, "then": None},   # converter hits the recursion limit
@@ -205,6 +209,13 @@ def oracle(case):
     from bibtexparser.middlewares.names import NameParts
     lib0 = _library(case)
     before = B.enc_blocks(lib0.blocks)
+    # nothing may leak between instances or directions: the same texts first go through a decoder and an encoder of their
+    # own (results discarded), in this process, before the stages under test run
+    for kind in ("dec", "enc"):
+        try:
+            _mw(kind, {}, True).transform(_library(case))
+        except Exception:  # noqa
+            pass
     lib = _library(case)
     st = _stages(case)
     try:
